@@ -6,8 +6,11 @@ from bounded import stats_ref as sr
 from bounded.C08 import spec_peak
 
 
-def reference_fdwra(f, A, rng_hz, n, max_iterations, dfn, dmc, exact=False):
-    """returns (accept mask, iterations) following the publication; peak search on entry, then iterate."""
+def reference_fdwra(f, A, rng_hz, n, max_iterations, dfn, dmc, exact=False, variant=None):
+    """returns (accept mask, iterations) following the publication; peak search on entry, then iterate.
+    `variant` selects a plausible *wrong* algorithm (used only to find curve sets on which such a slip would show):
+    "reaccept" = the masks are recomputed from the current bounds for every window with a peak; "frozen-mc" = the mean-curve peak is not
+    refreshed inside the loop; "live-bounds" = the bounds are recomputed after every rejection within one iteration."""
     peaks = [spec_peak(f, a, rng_hz) for a in A]
     has = np.array([p is not None for p in peaks])
     frq = np.array([p[0] if p is not None else np.nan for p in peaks])
@@ -30,19 +33,28 @@ def reference_fdwra(f, A, rng_hz, n, max_iterations, dfn, dmc, exact=False):
         if pk is None:
             raise ValueError("mean curve has no peak")
         return mean, std, pk[0]
+    mcp_entry = None
     for c in range(1, max_iterations + 1):
         mean_b, std_b, mcp_b = stats(vw, vp)
+        if variant == "frozen-mc":
+            mcp_entry = mcp_b if mcp_entry is None else mcp_entry
+            mcp_b = mcp_entry
         d_before = abs(mean_b - mcp_b)
         lo, hi = sr.nth(dfn, -n, mean_b, std_b), sr.nth(dfn, +n, mean_b, std_b)
         for i in range(len(A)):
-            if not vp[i]:
+            if not vp[i] and not (variant == "reaccept" and has[i]):
                 continue
+            if variant == "live-bounds" and vp.sum() >= 2:
+                m_, s_ = sr.mean(dfn, frq[vp]), sr.std(dfn, frq[vp])
+                lo, hi = sr.nth(dfn, -n, m_, s_), sr.nth(dfn, +n, m_, s_)
             keep = bool(frq[i] > lo and frq[i] < hi)
             if near(frq[i], lo) or near(frq[i], hi):
                 razor[0] = True        # a peak sits on a bound within rounding: the decision is not determined in floating point
             vw[i] = keep
             vp[i] = keep
         mean_a, std_a, mcp_a = stats(vw, vp)
+        if variant == "frozen-mc":
+            mcp_a = mcp_entry
         d_after = abs(mean_a - mcp_a)
         if not exact and (d_before < 1e-12 or std_b < 1e-12 or std_a < 1e-12):
             razor[0] = True            # "== 0" tests on quantities that are zero only up to rounding (summation order decides)
@@ -74,6 +86,17 @@ def gen_curves(rng, crafted=False):
     f = np.geomspace(0.2, 20, m)
     A = []
     base = rng.uniform(0.8, 5)
+    if crafted == "outlier":
+        # a tight cluster and one or two far outliers on one side: with small n the bounds move between iterations, so that windows rejected
+        # early would fall inside the later bounds again (they must stay rejected), and the mean curve changes while the loop runs
+        k = int(rng.integers(8, 15))
+        base = rng.uniform(1.0, 2.0)
+        far = [base * float(rng.choice([5.0, 7.0])) for _ in range(int(rng.integers(1, 3)))]
+        for q in range(k):
+            fc = far[q] if q < len(far) else base * np.exp(rng.normal(0, 0.12))
+            A.append(1 + rng.uniform(1.5, 4) * np.exp(-(np.log(f / fc) / rng.uniform(0.15, 0.3)) ** 2) + 0.05 * np.abs(rng.normal(0, 1, m)))
+        order = rng.permutation(k)
+        return f, np.array(A)[order]
     for _ in range(k):
         fc = base * np.exp(rng.normal(0, 0.15)) if rng.random() < 0.8 else rng.uniform(0.4, 12)
         A.append(1 + rng.uniform(1.5, 4) * np.exp(-(np.log(f / fc) / rng.uniform(0.15, 0.35)) ** 2) + 0.1 * np.abs(rng.normal(0, 1, m)))
@@ -84,9 +107,12 @@ def main_clause(cl, rng, n, replay):
     import hvsrpy
     for j in range(n):
         crafted = j % 5 == 4
-        f, A = gen_curves(rng, crafted)
+        outlier = j % 5 in (1, 3)
+        f, A = gen_curves(rng, "outlier" if outlier else crafted)
         nn = float(rng.choice([0.5, 1.0, 1.5, 2.0, 2.5])) if not crafted else float(rng.choice([1.0, 1.5]))
         mi = int(rng.choice([1, 2, 3, 50]))
+        if outlier:
+            nn, mi = float(rng.choice([0.6, 0.75, 0.9, 1.0, 1.2, 1.35])), 50
         dfn = "normal" if crafted else str(rng.choice(["normal", "lognormal"]))
         dmc = "normal" if crafted else str(rng.choice(["normal", "lognormal"]))
         rng_hz = (None, None) if rng.random() < 0.5 else (float(rng.uniform(0.2, 0.6)), float(rng.uniform(9, 20)))
@@ -133,6 +159,58 @@ def main_clause(cl, rng, n, replay):
             return
 
 
+_GRID = np.round(np.arange(0.5, 20.0001, 0.05), 6)
+
+
+def distinguishing_clause(cl, rng, n, replay):
+    """curve sets on which a plausible slip of the iteration (re-accepting, a mean curve that is not refreshed, bounds that move within one
+    iteration) would give other decisions or another iteration count than the published algorithm - found with the reference alone, then
+    the library is run on them"""
+    import hvsrpy
+    found, trials = 0, 0
+    quota = {"reaccept": 0, "frozen-mc": 0, "live-bounds": 0}
+    per_tag = max(1, n // 3)
+    while found < n and trials < 400 * n:
+        trials += 1
+        core = rng.normal(5, rng.uniform(0.3, 1.0), int(rng.integers(8, 20)))
+        extra = rng.uniform(0.8, 12, int(rng.integers(1, 4)))
+        pk = np.clip(np.concatenate([core, extra]), 0.7, 18)
+        rng.shuffle(pk)
+        nn = float(rng.choice([0.75, 1.0, 1.25, 1.5, 2.0]))
+        dfn, dmc = str(rng.choice(["lognormal", "normal"])), str(rng.choice(["lognormal", "normal"]))
+        A = 1 + 3 * np.exp(-0.5 * ((np.log(_GRID)[None, :] - np.log(pk)[:, None]) / 0.15) ** 2)
+        try:
+            want = reference_fdwra(_GRID, A.copy(), (None, None), nn, 50, dfn, dmc)
+            if want[4] or want[1].sum() < 3:
+                continue
+            tags = []
+            for v in ("reaccept", "frozen-mc", "live-bounds"):
+                alt = reference_fdwra(_GRID, A.copy(), (None, None), nn, 50, dfn, dmc, variant=v)
+                if alt[2] != want[2] or not np.array_equal(alt[1], want[1]):
+                    tags.append(v)
+        except (ValueError, ZeroDivisionError, FloatingPointError):
+            continue
+        tags = [t for t in tags if quota[t] < per_tag]          # every kind of slip gets its share of the sets
+        if not tags:
+            continue
+        for t in tags:
+            quota[t] += 1
+        found += 1
+        h = hvsrpy.HvsrTraditional(_GRID, A)
+        try:
+            it = hvsrpy.frequency_domain_window_rejection(h, n=nn, max_iterations=50, distribution_fn=dfn, distribution_mc=dmc)
+        except Exception as ex:
+            cl.fail("hvsrpy.window_rejection.frequency_domain_window_rejection", f"{type(ex).__name__}: {ex}", signature="fdwra:exception", n=nn)
+            return
+        cl.case((trials, nn, dfn, dmc, tuple(tags)))
+        if it != want[2] or not np.array_equal(h.valid_peak_boolean_mask, want[1]) or not np.array_equal(h.valid_window_boolean_mask, want[0]):
+            cl.fail("hvsrpy.window_rejection._frequency_domain_window_rejection",
+                    f"decisions / iteration count differ from the published algorithm on a set that separates it from {tags}: iterations {it} vs {want[2]}, accepted "
+                    f"{h.valid_peak_boolean_mask.astype(int).tolist()} vs {want[1].astype(int).tolist()}", signature="fdwra:distinguishing", n=nn, distribution_fn=dfn,
+                    distribution_mc=dmc, peaks=pk)
+            return
+
+
 def azimuthal_clause(cl, rng, n, replay):
     import hvsrpy
     for j in range(n):
@@ -165,8 +243,11 @@ def azimuthal_clause(cl, rng, n, replay):
 
 CLAUSES = [
     ("cross-check:FDWRA decisions and iteration count == published algorithm; never re-accepts; order and scale invariance", "cross-check",
-     "5-15 curves x 25-60 samples (plus crafted exact-zero cases on an integer grid), n in {0.5..2.5}, max_iterations in {1,2,3,50}, 4 distribution pairs, 2 range kinds",
+     "5-15 curves x 25-60 samples (plus crafted exact-zero cases on an integer grid and cluster-plus-far-outlier sets with n in {0.6..1.35}), n in {0.5..2.5}, max_iterations in {1,2,3,50}, 4 distribution pairs, 2 range kinds",
      "hvsrpy.window_rejection._frequency_domain_window_rejection", (220, 4000), main_clause),
+    ("cross-check:FDWRA on curve sets that separate the published iteration from plausible slips (re-accepting, stale mean curve, bounds moving within an iteration)",
+     "cross-check", "9-22 Gaussian-bump curves on a 0.05 Hz grid, n in {0.75..2}, 4 distribution pairs; sets selected with the reference alone", "hvsrpy.window_rejection._frequency_domain_window_rejection",
+     (6, 60), distinguishing_clause),
     ("cross-check:azimuthal FDWRA == per-azimuth algorithm, returns the maximum iteration count", "cross-check", "2-3 azimuths x 5-9 curves", "hvsrpy.window_rejection.frequency_domain_window_rejection",
      (60, 1000), azimuthal_clause),
 ]
